@@ -507,6 +507,15 @@ extern "C" {
           case 5: out = helper_tootheroption(x, iargs[1] != 0); break;
           case 6: out = helper_misc(x); break;
           case 7: out = std::make_shared<ak::NumpyArray>(helper_compact_offsets64(x, iargs[1] != 0)); break;
+          case 8: {
+            // ak.with_field: a new record array with one more (or one replaced) field
+            auto* rec = dynamic_cast<const ak::RecordArray*>(x.get());
+            if (rec == nullptr) throw NotApplicable();
+            ak::ContentPtr y = content(b);
+            if (y->length() != x->length()) throw std::invalid_argument("awsim: setitem_field needs arrays of equal length");
+            out = rec->setitem_field(std::string(sarg), y);
+            break;
+          }
           default: throw HarnessError("unknown layout helper");
         }
         break;
